@@ -254,9 +254,21 @@ class SymNDArray(_np.ndarray, metaclass=_NDMeta):
                                                  keepdims=keepdims, **kw)
         if self.dtype == object:
             kd = False if keepdims is _np._NoValue else keepdims
+            n = self.size if axis is None else self.shape[axis]
+            if n == 0 and kind in ('min', 'max'):
+                raise ValueError('zero-size array to reduction operation '
+                                 '%simum which has no identity' % kind)
             r = SymMaskedArray._sym_reduce(self, kind, axis, kd, **kw)
             if isinstance(r, _np.ma.MaskedArray):
-                return _np.ma.getdata(r).view(_np.ndarray)
+                d = _np.ma.getdata(r).view(_np.ndarray)
+                m = _np.ma.getmaskarray(r)
+                if m.any():
+                    # empty lanes: numpy gives nan for mean/var/std
+                    d = d.copy()
+                    d[m] = NAN
+                return d
+            if r is _np.ma.masked:
+                return NAN
             return r
         return sup()
 
@@ -267,6 +279,11 @@ class SymNDArray(_np.ndarray, metaclass=_NDMeta):
     def max(self, axis=None, out=None, keepdims=_np._NoValue, **k):
         return self._red('max', axis, keepdims, lambda: _np.ndarray.max(
             self, axis, out, keepdims, **k))
+
+    def mean(self, axis=None, dtype=None, out=None, keepdims=_np._NoValue,
+             **k):
+        return self._red('mean', axis, keepdims, lambda: _np.ndarray.mean(
+            self, axis, dtype, out, keepdims, **k))
 
     def std(self, axis=None, dtype=None, out=None, ddof=0,
             keepdims=_np._NoValue, **k):
@@ -303,9 +320,9 @@ class SymMaskedArray(_np.ma.MaskedArray, metaclass=_MAMeta):
             else:
                 del oshape[ax]
             oshape = tuple(oshape)
-            lead = d2.shape[:-1]
-            d2 = d2.reshape(-1, d2.shape[-1]) if d2.ndim > 1 else \
-                d2.reshape(1, -1)
+            nl = int(_np.prod(d2.shape[:-1], dtype=int)) if d2.ndim > 1 \
+                else 1
+            d2 = d2.reshape(nl, d2.shape[-1])
             m2 = m2.reshape(d2.shape)
         od = _np.empty(d2.shape[0], dtype=object)
         om = _np.zeros(d2.shape[0], dtype=bool)
